@@ -15,7 +15,8 @@ DECIDES = ("Static analysis (level 'other'): decides the listed structural claus
 
 CLAIMED = {
     "C01": dict(
-        text="Rules C01.1-C01.5: pthread_mutex wrapper wiring with exact TRUE/FALSE mapping and non-blocking trylock; "
+        text="Rules C01.1-C01.5: pthread_mutex wrapper wiring with exact TRUE/FALSE mapping and non-blocking trylock, the native mutex created "
+             "with default (non-recursive, non-robust) attributes; "
              "spinlock acquire protocol (CAS FREE->HELD, expected value provably FREE at every evaluation, order >= ACQUIRE, "
              "loop left only on CAS success), release protocol (release store / full barrier), lock/unlock state-encoding "
              "agreement, for the c11, sync and sim models. " + DECIDES % "C01",
@@ -29,7 +30,8 @@ CLAIMED = {
         technique="symbolic term evaluation of each operation against a specification term + per-path event-trace discipline (lock coverage, barrier side, single RMW)"),
     "C02": dict(
         text="Rules C02.1-C02.6. posix model: six wrappers wired to the right pthread_rwlock call (through their static helper), "
-             "TRUE iff 0, try-functions non-blocking. general model (never built by the suite): the internal mutex is taken and "
+             "TRUE iff 0, try-functions non-blocking, the native lock created with the default reader/writer preference (no writer-preferring "
+             "non-recursive kind). general model (never built by the suite): the internal mutex is taken and "
              "released exactly once on every path; the packed counters are touched only under it; every condition wait passes the "
              "held mutex, is registered in the waiter field the waker tests, and is followed by a re-evaluation of the admission "
              "predicate before the lock is granted; readers are admitted only with the writer field known zero, writers only with the "
@@ -54,7 +56,8 @@ CLAIMED = {
         text="Rules C09.1-C09.6 on psocket.c/perror.c: every interruptible call site re-issues the call after EINTR; on a blocking socket a "
              "would-block result (EAGAIN, mapped through the errno switch recovered from perror.c) leads back to the call through the wait and "
              "is never reported; the success path returns the system call's result unchanged, buffer and length reach it unmodified and at "
-             "full width; receive_from builds the sender address from the objects recvfrom filled; SIGPIPE is ignored at library "
+             "full width; receive_from builds the sender address from the objects recvfrom filled, and every buffer the kernel writes an address "
+             "into (recvfrom, getsockname, getpeername, accept) holds a sockaddr_in6 with its length object initialised accordingly; SIGPIPE is ignored at library "
              "initialisation or MSG_NOSIGNAL is passed; EAGAIN/EWOULDBLOCK/EINPROGRESS map to the codes the retry logic tests; connected is "
              "set only after connect==0 or wait+SO_ERROR==0, and SO_ERROR is read only on paths carrying the fact that the writability "
              "wait succeeded. " + DECIDES % "C09",
@@ -68,16 +71,21 @@ CLAIMED = {
              "every success path. " + DECIDES % "C10",
         technique="guard dataflow with dominance of the closed check, scenario flows (non-blocking would-block, successful creation), term evaluation of the poll timeout, field-agreement of getters/setters"),
     "C06": dict(
-        text="Rules C06.1-C06.4 on psemaphore-posix.c: name typestate in the create path (exclusive create first; never a plain open of a name "
+        text="Rules C06.1-C06.5. C06.1-C06.4 on psemaphore-posix.c: name typestate in the create path (exclusive create first; never a plain open of a name "
              "just unlinked; every creating open passes the requested initial value; CREATE mode on an existing name unlinks and "
              "re-creates, OPEN mode neither unlinks nor creates), ownership flag only where the handle created the name or took "
-             "ownership, close always / unlink only when owner, acquire/release wiring with exact result mapping, key identity. " + DECIDES % "C06",
+             "ownership, close always / unlink only when owner, acquire/release wiring with exact result mapping, key identity. C06.5 on psemaphore-sysv.c (not selectable in the Linux build, "
+             "analysed with the POSIX unit's flags): semop -1 / +1 on semaphore 0 from constant sembuf objects, blocking, with the same undo flag "
+             "in both directions, every semop retried on EINTR; exclusive semget first, ownership only on its success, SETVAL exactly when owned or "
+             "in CREATE mode, IPC_RMID only by the owner. " + DECIDES % "C06",
         technique="path-sensitive typestate over the IPC name (unknown/exists/absent) with guard facts on mode and errno; wiring and who-writes-field checks"),
     "C07": dict(
-        text="Rules C07.1-C07.5 on pshm-posix.c: mmap parameters (MAP_SHARED, offset 0, shm_open descriptor, size field, protection by "
+        text="Rules C07.1-C07.6. C07.1-C07.5 on pshm-posix.c: mmap parameters (MAP_SHARED, offset 0, shm_open descriptor, size field, protection by "
              "perms); creator/follower split (ftruncate only by the creator, follower size from fstat on every path to the mapping, owner "
              "flag, unlink only when owner); descriptor closed exactly once on every path; lock semaphore on the same key with value 1 and "
-             "CREATE iff creator, lock/unlock wiring; the field munmap uses as length equals the mapped length and is frozen while mapped. " + DECIDES % "C07",
+             "CREATE iff creator, lock/unlock wiring; the field munmap uses as length equals the mapped length and is frozen while mapped. C07.6 on pshm-sysv.c (analysed with "
+             "the POSIX unit's flags): exclusive shmget with the requested size first, plain lookup with size 0 otherwise, reported size from "
+             "shm_segsz, lock semaphore CREATE exactly for the creator, IPC_RMID only with no attachment left, lock/unlock wiring. " + DECIDES % "C07",
         technique="path-sensitive typestate (descriptor open/closed, role creator/follower, size provenance) with guard facts; frozen-field rule between mmap and munmap"),
     "C08": dict(
         text="Rules C08.1-C08.6 on pshmbuffer.c (+ the reported-size half of C08.4 on pshm-posix.c): every segment access and every call of "
@@ -85,11 +93,12 @@ CLAIMED = {
              "computed from the word loaded under the same lock; the ring is written only after 'free < len' tested false, refusal returns 0 "
              "untouched, read takes min(used, len); for each of the three orderings of the positions used + free + 1 == size with no "
              "negative subtraction (linear normaliser, no solver); contiguous copy only under start+n<=size, wrapped copy lengths/offsets "
-             "identities, copied total == position advance; the ring modulus derives only from the size the shm layer reports. One known "
+             "identities, copied total == position advance; clear zero-fills from offset 0 over the whole reported segment (at least the "
+             "header holding both positions); the ring modulus derives only from the size the shm layer reports. One known "
              "finding (reported size of an existing segment depends on the opener's argument). " + DECIDES % "C08",
         technique="term-valued path-sensitive dataflow with lock typestate; linear-form normalisation of the space/copy identities over the finite set of position orderings"),
     "C05": dict(
-        text="Rules C05.1-C05.5 on puthread.c / puthread-posix.c: native create and all initialising stores under the creation spinlock, "
+        text="Rules C05.1-C05.5 on puthread.c / puthread-posix.c (C05.3 includes: the native detach state handed to pthread_attr_setdetachstate agrees with the joinable flag on every path): native create and all initialising stores under the creation spinlock, "
              "the new thread reads creator-initialised fields only after passing it; created handles start with 2 references, adopted "
              "with 1, ref_count otherwise only through atomic inc/dec_and_test, release exactly when dec_and_test is TRUE, own reference "
              "dropped by the destructor of the library TLS slot, and a function that drops the handle it read from that slot clears the slot "
@@ -103,7 +112,7 @@ CLAIMED = {
              "variant-specific constructor, standard digest length fitting the state array, exact range test); dispatcher typestate "
              "(update only while open, finish only on an object seen open, the digest read only from a finished state, every exit "
              "after finish leaves closed set - exits for a NULL digest pointer excluded because every digest slot returns an embedded "
-             "array -, reset reopens, bounded copy-out); hex encoding decided on the reader with its helpers inlined (two table digits per "
+             "array -, reset reopens, bounded copy-out; every digest slot only reads its context, since the dispatcher calls it on every read); hex encoding decided on the reader with its helpers inlined (two table digits per "
              "byte at 2i and 2i+1 or through a once-per-digit cursor, hash_len iterations, zero-filled 2*hash_len+1 buffer); the psize update length never compared/accumulated through a narrowing cast without "
              "high-part accounting; block-size constants agree with the buffer's byte size and the padding constants satisfy the "
              "standard identity; reset re-initialises every field update/finish write; possibly-aliasing padding stores OR their bits "
@@ -125,14 +134,15 @@ CLAIMED = {
              "or continues one level up with the loop invariant re-established (induction). C13.1/C13.4 (term flow): every insertion/removal path "
              "reaches the fix-up with its entry invariant (new node RED / factor 0, NULL children, parent set, linked; retrace from the leaf before "
              "unlinking or from the relinked child; fix-up before unlink on the childless-black path; an only child replacing a black node is "
-             "painted black). The numeric comparison bounds follow from the invariants by the textbook argument and are not re-derived. " + DECIDES % "C13",
+             "painted black; outside the retracing helpers a balance factor is only ever set to 0). The numeric comparison bounds follow from the invariants by the textbook argument and are not re-derived. " + DECIDES % "C13",
         technique="parametric shape analysis (materialisation/focus over a local heap with summary subtrees carrying symbolic black heights / heights, induction over the fix-up loop, helpers inlined) plus must-pass-through rules on term-flow return states"),
     "C14": dict(
-        text="Rules C14.1-C14.4 on ptree*.c: on every successful removal path (all three variants) the key and value of the node whose key "
+        text="Rules C14.1-C14.5 on ptree*.c: on every successful removal path (all three variants) the key and value of the node whose key "
              "compared equal go to their notifiers exactly once, nothing still stored in a surviving node is destroyed, the removed pair does "
              "not survive in another node, one node is freed; the replace path hands the old pair to the notifiers before storing the new one; "
              "clear destroys every released node's pair first and free goes through clear; every notifier call is NULL-guarded; the library "
-             "never frees or writes through user keys/values. " + DECIDES % "C14",
+             "never frees or writes through user keys/values; no path reads or re-releases a node after handing it to p_free (the notifiers get what the "
+             "node held). " + DECIDES % "C14",
         technique="abstract interpretation of node/pair identity (term flow with widened descent and predecessor loops) with exit obligations on notifier arguments"),
     "C15": dict(
         text="Rules C15.1-C15.6 on phashtable.c / plist.c: no key-dependent arithmetic in a signed type in the bucket computation; every bucket "
@@ -150,7 +160,7 @@ CLAIMED = {
              "array given the fgets bound; parameter objects come only from those arrays, which bounds the list getter's buffer; sections "
              "are linked only with a non-empty key list and parameters only into an open section; getters return the default for a missing "
              "key and release the looked-up copy; each line string is freed and the file closed on every path; typed getters use the "
-             "documented conversion primitive and radix; the four line patterns, their order and conversion counts are the documented grammar "
+             "documented conversion primitive and radix and return the converted number through no narrower type; the four line patterns, their order and conversion counts are the documented grammar "
              "table and the header pattern is applied only to lines that start with '[' and end with ']'; section names, keys and values reach "
              "their constructors only as trimmed text and the empty-quotes normalisation is made on the trimmed value. What the scanf patterns accept "
              "beyond that table agreement is not decided. " + DECIDES % "C16",
